@@ -289,3 +289,53 @@ def make_mutant(job):
         return name, "identity", data
     kind, m = corpus.mutate(data, rnd)
     return name, kind, m
+
+
+_viewer_guard = False
+
+
+def install_viewer_guard():
+    """Same resource guard for the deserialiser code path used by the bitstream viewer."""
+    global _viewer_guard
+    if _viewer_guard:
+        return
+    from vc2_conformance.bitstream import vc2
+
+    real_sh = vc2.sequence_header
+
+    def sequence_header(serdes, state):
+        vp = real_sh(serdes, state)
+        _check_vp(vp)
+        return vp
+
+    vc2.sequence_header = sequence_header
+    real_sp = vc2.slice_parameters
+
+    def slice_parameters(serdes, state):
+        _check_tp(state)
+        r = real_sp(serdes, state)
+        _check_tp(state)
+        return r
+
+    vc2.slice_parameters = slice_parameters
+    _viewer_guard = True
+
+
+def with_timeout(fn, timeout=5.0):
+    """Run fn() under a SIGALRM timeout; returns ('ok', value) | ('oos', msg) | ('timeout', None)."""
+    import signal
+
+    def on_alarm(signum, frame):
+        raise VerifTimeout()
+
+    old = signal.signal(signal.SIGALRM, on_alarm)
+    signal.setitimer(signal.ITIMER_REAL, timeout)
+    try:
+        return "ok", fn()
+    except OutOfScope as e:
+        return "oos", str(e)
+    except VerifTimeout:
+        return "timeout", None
+    finally:
+        signal.setitimer(signal.ITIMER_REAL, 0)
+        signal.signal(signal.SIGALRM, old)
